@@ -4,7 +4,7 @@ public API only, on generated repository + tool config files) + an oracle, writt
 the model, that computes the documented precedence directly from the generated structure."""
 import json, os, re, sys, tomllib
 import vlib
-from vlib import coq_str, coq_list, coq_bool, decode_str
+from vlib import coq_list, coq_bool, decode_str
 
 PROP = "C06"
 IMPORTS = ["Base.Str", "Model.Overrides", "Proofs.Overrides"]
@@ -160,6 +160,28 @@ def file_toml(f):
     return "\n".join(out) + "\n"
 
 
+class Interner:
+    """distinct strings of a batch become prelude definitions (keeps the case terms small)"""
+
+    def __init__(self):
+        self.names = {}
+
+    def __call__(self, text):
+        if text not in self.names:
+            self.names[text] = f"i_{len(self.names)}"
+        return self.names[text]
+
+    def prelude(self):
+        return "\n".join(f"Definition {n} : str := {vlib.coq_str(t)}." for t, n in self.names.items())
+
+
+_INTERN = None
+
+
+def coq_str(text):
+    return _INTERN(text) if _INTERN is not None else vlib.coq_str(text)
+
+
 def coq_opt(x, f):
     return "None" if x is None else f"(Some {f(x)})"
 
@@ -211,13 +233,20 @@ Definition tbl_get (tbl : list (str * list bool)) (k : str) (i : N) : bool :=
 Definition mk_env (st ft : list (str * list bool)) : env := {| e_spec := tbl_get st; e_filter := tbl_get ft |}.
 Definition mk_t (i : N) (h : bool) : test := {| t_id := i; t_host := h |}.
 Definition mk_bp (h : N) (t : option N) : bplat := {| bp_host := h; bp_target := t |}.
+@STRINGS@
+Definition all_tests : list test := @TESTS@.
 Definition builtin_file : file := @BUILTIN@.
 Definition probe (repo : file) (tools : list file) (names : list key) : list (list (list (list N))) :=
   map (fun n => [enc_sval (olookup k_retries (merged_profile builtin_file repo tools n));
                  enc_sval (olookup k_slow_timeout (merged_profile builtin_file repo tools n))]) names.
+(* results are printed with every string replaced by its index in the batch's string table *)
+Definition str_tbl : list (str * N) := @TBL@.
+Definition sid (a : str) : N := match lookup a str_tbl with Some n => n | None => 4000000000 end.
+Definition enc_id (v : list (list N)) : list N :=
+  match v with [] => [] | tag :: rest => hd 9 tag :: map sid rest end.
 Definition case_eval (e : env) (bp : bplat) (repo : file) (tools : list file) (sel : key)
-           (tests : list test) (names : list key) : list (list (list (list N))) :=
-  probe repo tools names ++ run_case e bp builtin_file repo tools sel tests.
+           (tests : list test) (names : list key) : list (list (list N)) :=
+  map (map enc_id) (probe repo tools names ++ run_case e bp builtin_file repo tools sel tests).
 """
 
 # ------------------------------------------------------------------------------------ canonical values
@@ -304,14 +333,16 @@ def canon_impl(s):
     }
 
 
-def decode_sval(enc):
-    """enc_sval output -> python value (None if absent)"""
+def decode_sval(enc, strings):
+    """enc_id (enc_sval ..) output -> python value (None if absent); strings: the batch's table"""
     if not enc:
         return None
-    atom = lambda a: tomllib.loads("x = " + decode_str(a))["x"]
-    if enc[0] == [0]:
+    if max(enc[1:], default=0) >= len(strings):
+        raise GlueError(f"model produced a string outside the case's string table: {enc}")
+    atom = lambda i: tomllib.loads("x = " + strings[i])["x"]
+    if enc[0] == 0:
         return atom(enc[1])
-    return {decode_str(enc[i]): atom(enc[i + 1]) for i in range(1, len(enc), 2)}
+    return {strings[enc[i]]: atom(enc[i + 1]) for i in range(1, len(enc), 2)}
 
 
 # ------------------------------------------------------------------------------------ the oracle
@@ -631,10 +662,9 @@ def coq_case(case, impl, names):
                       for s, row in zip(used_specs(case), impl["specs"])])
     flts = coq_list([f"({coq_str(f)}, {coq_list([coq_bool(b) for b in row])})"
                      for f, row in zip(used_filters(case), impl["filters"])])
-    tests = coq_list([f"mk_t {i} {coq_bool(q['platform'] == 'host')}" for i, q in enumerate(QUERIES)])
     bp = f"(mk_bp 0 {'None' if case['target'] is None else '(Some 1)'})"
     return (f"case_eval (mk_env {specs} {flts}) {bp} {coq_file(case['repo'])} "
-            f"{coq_list([coq_file(t) for t in case['tools']])} {coq_str(case['profile'])} {tests} "
+            f"{coq_list([coq_file(t) for t in case['tools']])} {coq_str(case['profile'])} all_tests "
             f"{coq_list([coq_str(n) for n in names])}")
 
 
@@ -660,7 +690,10 @@ def check_tables(case, impl):
 def evaluate(binary, cases, builtin, tag):
     """-> per case dict(impl, model_probe, model_settings, names)"""
     impl = vlib.run_impl(binary, "overrides", [harness_case(c) for c in cases])
-    prelude = PRELUDE_TMPL.replace("@BUILTIN@", coq_file(builtin))
+    global _INTERN
+    _INTERN = Interner()
+    for const in ("0", '"@global"', "false"):     # a_zero, a_global, a_false of the model
+        _INTERN(const)
     # cases whose config the real code rejected still get a model run (with empty oracle tables the
     # model's answer for the probe part does not depend on them)
     exprs, names_l = [], []
@@ -670,13 +703,19 @@ def evaluate(binary, cases, builtin, tag):
         tables = i if "settings" in i else dict(specs=[[True, True]] * len(used_specs(c)),
                                                 filters=[[True] * len(QUERIES)] * len(used_filters(c)))
         exprs.append(coq_case(c, tables, names))
+    tests = coq_list([f"mk_t {i} {coq_bool(q['platform'] == 'host')}" for i, q in enumerate(QUERIES)])
+    prelude = PRELUDE_TMPL.replace("@BUILTIN@", coq_file(builtin)).replace("@TESTS@", tests) \
+        .replace("@STRINGS@", _INTERN.prelude()) \
+        .replace("@TBL@", coq_list([f"({n}, {i})" for i, n in enumerate(_INTERN.names.values())]))
+    strings = list(_INTERN.names)
+    _INTERN = None
     model = vlib.coq_eval(tag, IMPORTS, exprs, prelude)
     out = []
     for c, i, m, names in zip(cases, impl, model, names_l):
-        probe = {n: {"retries": decode_sval(m[k][0]), "slow-timeout": decode_sval(m[k][1])}
+        probe = {n: {"retries": decode_sval(m[k][0], strings), "slow-timeout": decode_sval(m[k][1], strings)}
                  for k, n in enumerate(names)}
         rest = m[len(names):]
-        settings = [{s: decode_sval(e) for s, e in zip(SETTINGS, per_test)} for per_test in rest]
+        settings = [{s: decode_sval(e, strings) for s, e in zip(SETTINGS, per_test)} for per_test in rest]
         out.append(dict(impl=i, probe=probe, model=settings, names=names))
     return out
 
@@ -816,7 +855,7 @@ def run(tier, seed):
 
     cases = witness_cases() + corpus()
     n_fixed = len(cases)
-    while len(cases) < (4500 if thorough else 500):
+    while len(cases) < (15000 if thorough else 800):
         cases.append(gen_case(r))
     results = []
     step = 1500
